@@ -1,6 +1,7 @@
 package harness
 
 import (
+	"sort"
 	"fmt"
 	"strings"
 
@@ -35,7 +36,7 @@ func init() {
 	// ------------------------------------------------------------------ C01
 	register(&Prop{
 		ID: "C01", Level: "exploration", QuickS: 20, ThoroughS: 300,
-		Rule:       "seeded authentication attempts against ClearTextPassword(validator) and a custom failing strategy: validator outcome drawn per case (accept / reject / fail with either verdict flag), the client sends in place of the password message a correct, wrong or empty password, a password message without NUL / with surplus bytes / with declared length 0-3, > limit or 2^32-1, another message type, garbage, or nothing; then a generated tail of queries, extended messages, Terminate and raw bytes, pipelined in the same segment or sent after the server's reply; segmentation and a failing write are drawn per case; a share of cases lets 2-3 connections log in to one account at the same time under seeded schedules (one with the right password); a share of cases authenticates inside an upgraded (TLS) connection, with and without an unverified client certificate, judged against the plaintext equivalent; in a quarter of the cases an earlier connection first logs in successfully with related credentials (the same triple, whose password the validator rejects from the second time on, or a triple that reads the same when its parts are joined with a separator), some accounts have an empty password, some servers were given an accept-all strategy before the configured one (last option wins), a failing write is permanent or transient (exactly one write fails); validators that panic (the injected panic crosses the library and is caught at the top of the connection goroutine: the process may die, the connection never gets in); non-trivial = the connection was not accepted and the client sent at least one message after its credentials; distinct = distinct case content hashes",
+		Rule:       "seeded authentication attempts against ClearTextPassword(validator) and a custom failing strategy: validator outcome drawn per case (accept / reject / fail with either verdict flag), the client sends in place of the password message a correct, wrong or empty password, a password message without NUL / with surplus bytes / with declared length 0-3, > limit or 2^32-1, another message type, garbage, or nothing; then a generated tail of queries, extended messages, Terminate and raw bytes, pipelined in the same segment or sent after the server's reply; segmentation and a failing write are drawn per case; a share of cases lets 2-3 connections log in to one account at the same time under seeded schedules (one with the right password); a share of cases authenticates inside an upgraded (TLS) connection, with and without an unverified client certificate, judged against the plaintext equivalent; in a quarter of the cases an earlier connection first logs in successfully with related credentials (the same triple, whose password the validator rejects from the second time on, or a triple that reads the same when its parts are joined with a separator), some accounts have an empty password, some servers were given an accept-all strategy before the configured one (last option wins), a failing write is permanent or transient (exactly one write fails); validators whose returned context has already ended when they refuse (a lookup under its own time limit); E2 variant: Server.Close runs while the validator is looking at a wrong password (the refusal is still reported, nothing is served); validators that panic (the injected panic crosses the library and is caught at the top of the connection goroutine: the process may die, the connection never gets in); non-trivial = the connection was not accepted and the client sent at least one message after its credentials; distinct = distinct case content hashes",
 		Components: e1Components, Assumptions: commonAssumptions,
 		Gen: func(r *Rand, tier string) *Case {
 			if r.Chance(1, 15) {
@@ -58,6 +59,21 @@ func init() {
 						return c
 					}
 				}
+			}
+			if r.Chance(1, 30) {
+				// Server.Close runs while the validator is looking at a wrong password
+				// (engine E2): the refusal is still reported and nothing is served
+				c := &Case{Variant: "close-during-validation", Server: ServerCfg{Auth: "cleartext", Limit: 4096, DefaultAuth: r.Pick("reject", "reject", "fail")}, Programs: map[string]*Program{}}
+				user, db, pw := r.Ident(4), r.Ident(3), "secret"+r.Ident(2)
+				c.Server.Validator = []AuthEntry{{DB: db, User: user, PW: pw, Out: "accept"}}
+				if r.Chance(1, 3) {
+					c.Server.MW = []MWSpec{{}}
+				}
+				tail := genTail(r, c)
+				c.Conns = []ConnCase{{Steps: []Step{{Msgs: []pgwire.FMsg{startupMsg(user, db)}}, {Msgs: append([]pgwire.FMsg{{K: "p", S1: "wrong" + r.Ident(2)}}, tail...)}}}}
+				c.Sched = &SchedCase{Strategy: r.Pick("uniform", "pct"), Depth: 1, MaxSteps: 200000, Closers: []Closer{{Calls: r.Range(1, 2)}},
+					Holds: []Hold{{Task: 2, Point: "closer.start", Until: 1, UntilPoint: "cb.validator"}, {Task: 1, Point: "cb.validator", Until: 2, UntilPoint: r.Pick("close.signalled", "close.signalled", "closer.returned")}}}
+				return c
 			}
 			if r.Chance(1, 12) {
 				// several connections log in to the same account at the same time
@@ -107,6 +123,9 @@ func init() {
 			}
 			c.Server.Validator = []AuthEntry{{DB: db, User: user, PW: pw, Out: out}}
 			c.Server.DefaultAuth = r.Pick("reject", "reject", "fail")
+			// (a validator that looks the account up under a time limit of its own:
+			// the context it hands back has ended by the time it returns)
+			c.Server.ValCtxDone = r.Chance(1, 6)
 			var cred pgwire.FMsg
 			var credTail []pgwire.FMsg
 			su := startupMsg(user, db)
@@ -373,7 +392,7 @@ func init() {
 	// ------------------------------------------------------------------ C02
 	register(&Prop{
 		ID: "C02", Level: "exploration", QuickS: 25, ThoroughS: 420,
-		Rule:       "seeded sessions from the widest handler-program generator (0-4 columns with arbitrary NUL-free names, every covered OID, rows that are fine / wrong arity / unencodable at column j so that a frame is abandoned half-built, command tags, errors decorated with every combination and order of code/severity/hint/detail/source/constraint and %w wrapping, COPY responses, startup with and without authentication, oversized and unknown client messages, simple and extended protocol) with a failing, transiently failing or slow (the peer stalls inside the write for 0.1 s - 1 h of simulated time, then resumes) k-th write in a third of the runs, optionally one or two SSLRequests ahead of the startup packet; the accepted output must parse under the strict backend grammar with zero bytes left over; the same rule runs as a monitor in every other property's runs; transient write failures deliver a prefix of the failing write (optionally reporting Timeout()): nothing may be written behind a torn message; non-trivial = the run produced at least one ErrorResponse, DataRow or rejected row; distinct = distinct case content hashes",
+		Rule:       "seeded sessions from the widest handler-program generator (0-4 columns with arbitrary NUL-free names, every covered OID, rows that are fine / wrong arity / unencodable at column j so that a frame is abandoned half-built, command tags, errors decorated with every combination and order of code/severity/hint/detail/source/constraint and %w wrapping, COPY responses, Go strings with NUL bytes in text columns, a session context that ends at any operation of any statement while the client goes on sending, startup with and without authentication, oversized and unknown client messages, simple and extended protocol) with a failing, transiently failing or slow (the peer stalls inside the write for 0.1 s - 1 h of simulated time, then resumes) k-th write in a third of the runs, optionally one or two SSLRequests ahead of the startup packet; the accepted output must parse under the strict backend grammar with zero bytes left over; the same rule runs as a monitor in every other property's runs; transient write failures deliver a prefix of the failing write (optionally reporting Timeout()): nothing may be written behind a torn message; non-trivial = the run produced at least one ErrorResponse, DataRow or rejected row; distinct = distinct case content hashes",
 		Components: e1Components, Assumptions: commonAssumptions,
 		Gen: func(r *Rand, tier string) *Case {
 			c := &Case{Server: ServerCfg{Limit: smallLimit(r)}}
@@ -384,8 +403,31 @@ func init() {
 				c.Server.Params = map[string]string{r.Ident(5): r.Str(r.Intn(8))}
 				c.Server.Version = r.Pick("", "15.2", r.Str(4))
 			}
+			r.NulStr = true
 			genHistory(r, c, histOpts{manyRows: true, simple: true, extended: true, copy: true, errs: true, abuse: true, unknown: true, oversized: true,
 				stray: true, decorated: true, rich: true, binary: true, params: true, typedNull: true, unknownNames: true, closes: true, multi: true, terminate: true, maxUnits: 7})
+			if r.Chance(1, 8) {
+				// the session context (derived by a middleware, as a session time limit
+				// would) ends at some operation of some statement; whatever the server
+				// still sends afterwards - in this command and in the later ones - is
+				// made of complete messages
+				c.Server.MW = append(c.Server.MW, MWSpec{Cancel: true})
+				var keys []string
+				for k, p := range c.Programs {
+					if len(p.Stmts) > 0 {
+						keys = append(keys, k)
+					}
+				}
+				sort.Strings(keys)
+				if len(keys) > 0 {
+					p := c.Programs[keys[r.Intn(len(keys))]]
+					sp := p.Stmts[r.Intn(len(p.Stmts))]
+					at := r.Intn(len(sp.Ops) + 1)
+					ops := append([]Op{}, sp.Ops[:at]...)
+					ops = append(ops, Op{K: "cancel"})
+					sp.Ops = append(ops, sp.Ops[at:]...)
+				}
+			}
 			if r.Chance(1, 8) {
 				// a client of a newer minor protocol version with protocol options
 				// (also repeated ones): the server may answer NegotiateProtocolVersion
